@@ -25,7 +25,25 @@ def check(prop, tier, seed, replay):
         vlib.cleanup(work)
 
 
+def repo_panic(out):
+    """the driver died of a Go panic whose running goroutine was inside the repository's code (not the harness's)"""
+    i = out.find("panic:")
+    if i < 0:
+        return False
+    j = out.find("[running]:", i)
+    if j < 0:
+        return False
+    frames = [l.strip() for l in out[j:].splitlines()[1:6] if l.strip() and not l.startswith("\t")]
+    return bool(frames) and frames[0].startswith("github.com/mgtv-tech/redis-GunYu/")
+
+
+def panic_head(out):
+    i = out.find("panic:")
+    return " | ".join(l.strip() for l in out[i:].splitlines()[:5])[:400]
+
+
 def _check(prop, tier, seed, replay, work, t0):
+    crashes = []
     drv = vlib.build_driver("clusterdrv", work)
     states = trans = 0
     druns = []
@@ -47,8 +65,23 @@ def _check(prop, tier, seed, replay, work, t0):
                        ("hotbatch", ["-n", str(nhot), "-hot", "1", "-mode", "batch", "-id-base", "1000000"])):
         cmds = [[drv, "-seed", str(seed)] + flags + ["-shard", str(i), "-shards", str(shards),
                  "-out", os.path.join(work, "%s%d.ndjson" % (tag, i)), "-stats", os.path.join(work, "%s%d.json" % (tag, i))] for i in range(shards)]
-        for rc, out in vlib.run_parallel(cmds, timeout=6000):
+        for ci, (rc, out) in enumerate(vlib.run_parallel(cmds, timeout=6000)):
             if rc != 0:
+                # the driver is the tool's replay in a process of the harness: if it dies of a Go panic raised inside the
+                # repository's own code - twice, on the same scenarios - the tool crashes where C19 demands a retry or a
+                # reported restart.  Anything else that kills the driver is a harness error.
+                if repo_panic(out):
+                    rc2, out2 = vlib.run_parallel([cmds[ci]], timeout=6000)[0]
+                    if rc2 != 0 and repo_panic(out2):
+                        path = vlib.save_replay(prop, "crash-%s%d" % (tag, ci), {"property": prop, "invariants": ["C19_ToolCrashedWhileReplaying"],
+                                                                                "command": cmds[ci], "first": out[-4000:], "second": out2[-4000:]})
+                        crashes.append({"replay": path, "what": "C19_ToolCrashedWhileReplaying: the replay process died of a panic in the tool's own code, twice on the same scenarios (%s): %s" % (
+                            " ".join(cmds[ci][1:9]), panic_head(out2))})
+                        # the shard's trace is incomplete: leave it out
+                        open(os.path.join(work, "%s%d.ndjson" % (tag, ci)), "w").close()
+                        vlib_json = {"scenarios": 0, "executed": 0, "with_migration": 0, "modes": {}}
+                        json.dump(vlib_json, open(os.path.join(work, "%s%d.json" % (tag, ci)), "w"))
+                        continue
                 raise vlib.HarnessError("clusterdrv failed (%d):\n%s" % (rc, out[-3000:]))
         with open(trace, "a") as w:
             for i in range(shards):
@@ -61,7 +94,7 @@ def _check(prop, tier, seed, replay, work, t0):
                 shutil.copyfileobj(open(os.path.join(work, "%s%d.ndjson" % (tag, i))), w)
                 os.remove(os.path.join(work, "%s%d.ndjson" % (tag, i)))
     viol, tr = vlib.tlc_trace([os.path.join(SPEC, "trace", "TraceCluster.tla")], "TraceCluster", trace, work, timeout=6000)
-    violations, known = [], []
+    violations, known = list(crashes), []
     if viol:
         lines = open(trace).read().splitlines()
         # one verdict per scenario: its first violation is the cause, later ones in the same scenario are consequences
